@@ -213,6 +213,17 @@ func convertTo(mappings map[string]any, typ reflect.Type) (any, error) {
 func assignOne(destValue reflect.Value, taken any, to string) (reflect.Value, error) {
 	if len(to) == 0 { // assign to output directly
 		toSet := reflect.ValueOf(taken)
+		if !toSet.IsValid() {
+			switch destValue.Kind() {
+			case reflect.Map, reflect.Slice, reflect.Ptr, reflect.Interface:
+				// a nil interface value: the output becomes the nil (zero) value of its type
+				destValue.Set(reflect.Zero(destValue.Type()))
+				return destValue, nil
+			default:
+				return destValue, fmt.Errorf("mapping entire value from a zero reflect.Value to type=%v, which cannot be nil", destValue.Type())
+			}
+		}
+
 		if !toSet.Type().AssignableTo(destValue.Type()) {
 			return destValue, fmt.Errorf("mapping entire value has a mismatched type. from=%v, to=%v", toSet.Type(), destValue.Type())
 		}
@@ -253,7 +264,7 @@ func assignOne(destValue reflect.Value, taken any, to string) (reflect.Value, er
 				}
 
 				if !toSet.IsValid() {
-					destValue.Interface().(map[string]any)[path] = nil
+					destValue.SetMapIndex(key, reflect.Zero(destValue.Type().Elem()))
 				} else {
 					destValue.SetMapIndex(key, toSet)
 				}
@@ -523,10 +534,6 @@ func checkAndExtractToMapKey(toMapKey string, output, toSet reflect.Value) (key 
 	}
 
 	if !toSet.IsValid() {
-		if output.Type() != reflect.TypeOf(map[string]any{}) {
-			return reflect.Value{}, fmt.Errorf("field mapping from a zero reflect.Value to map field whose map type is not map[string]any: %v", output.Type())
-		}
-
 		switch output.Type().Elem().Kind() {
 		case reflect.Map, reflect.Slice, reflect.Ptr, reflect.Interface:
 			return reflect.ValueOf(toMapKey), nil
@@ -609,6 +616,13 @@ func streamFieldMap(mappings []*FieldMapping) func(streamReader) streamReader {
 }
 
 func takeOne(inputValue reflect.Value, inputType reflect.Type, from string) (taken any, takenType reflect.Type, err error) {
+	if !inputValue.IsValid() {
+		// a nil interface value on the path: there is nothing to take the field from
+		return nil, nil, &errInterfaceNotValidForFieldMapping{
+			interfaceType: inputType,
+		}
+	}
+
 	var f reflect.Value
 	switch inputValue.Kind() {
 	case reflect.Map:
@@ -713,7 +727,13 @@ func validateFieldMapping(predecessorType reflect.Type, successorType reflect.Ty
 		if predecessorIntermediateInterface {
 			checker := func(a any) (any, error) {
 				trueInType := reflect.TypeOf(a)
-				if !trueInType.AssignableTo(successorFieldType) {
+				if trueInType == nil {
+					switch successorFieldType.Kind() {
+					case reflect.Map, reflect.Slice, reflect.Ptr, reflect.Interface:
+					default:
+						return nil, fmt.Errorf("runtime check failed for mapping %s, field[%v]-[%v] is absolutely not assignable", mapping, trueInType, successorFieldType)
+					}
+				} else if !trueInType.AssignableTo(successorFieldType) {
 					return nil, fmt.Errorf("runtime check failed for mapping %s, field[%v]-[%v] is absolutely not assignable", mapping, trueInType, successorFieldType)
 				}
 				return a, nil
